@@ -20,15 +20,51 @@ Fixpoint feed_obs (limit : N) (sv : option N) (st : gw_state) (chunks : list byt
     :: feed_obs limit sv st1 cs
   end.
 
+(* The harness prints the buffered bytes of a step as [InSuffix k] when they are the
+   last k bytes delivered so far (always the case unless something is wrong) — only
+   to keep the case files small; [resolve_steps] expands it back to the bytes. *)
+Inductive inb := InSuffix (k : N) | InBytes (b : bytes).
+Record step_raw := StepR { sr_batches : list (list (frame * meta)); sr_inbound : inb; sr_closed : bool }.
+
+Definition resolve_inb (received : bytes) (i : inb) : bytes :=
+  match i with
+  | InSuffix k => skipn (length received - N.to_nat k) received
+  | InBytes b => b
+  end.
+
+Fixpoint resolve_steps (chunks : list bytes) (steps : list step_raw) (received : bytes) : list step_obs :=
+  match steps with
+  | [] => []
+  | s :: ss =>
+    let c := match chunks with c :: _ => c | [] => [] end in
+    let received' := received ++ c in
+    Step (sr_batches s) (resolve_inb received' (sr_inbound s)) (sr_closed s)
+    :: resolve_steps (tl chunks) ss received'
+  end.
+
+(* likewise an encoding that is literally stream[off : off+len] is printed [EncAt off len] *)
+Inductive enc_raw := EncAt (off len : N) | EncLit (e : enc_result).
+Definition resolve_enc (stream : bytes) (e : enc_raw) : enc_result :=
+  match e with
+  | EncAt off len => EncOk (firstn (N.to_nat len) (skipn (N.to_nat off) stream))
+  | EncLit r => r
+  end.
+
 Record c23_case := C23Case {
   c23_sv : option N;                 (* protocol version stored on the session, if any *)
   c23_limit : N;                     (* MaxInboundBytes of the server *)
   c23_frames : list frame;           (* frames the stream claims to be made of (may be []) *)
-  c23_encs : list enc_result;        (* the implementation's EncodeFrame of each of them *)
+  c23_encs_raw : list enc_raw;       (* the implementation's EncodeFrame of each of them *)
   c23_chunks : list bytes;
   c23_whole : adapter_result;        (* Adapter.Decode on the concatenation of the chunks *)
-  c23_steps : list step_obs;         (* the gateway fed chunk by chunk *)
+  c23_steps_raw : list step_raw;     (* the gateway fed chunk by chunk *)
   c23_detach : bool }.               (* SEND payloads survived overwriting the input buffer *)
+
+Definition c23_encs (c : c23_case) : list enc_result :=
+  map (resolve_enc (concat (c23_chunks c))) (c23_encs_raw c).
+
+Definition c23_steps (c : c23_case) : list step_obs :=
+  resolve_steps (c23_chunks c) (c23_steps_raw c) [].
 
 Definition step_eqb (a b : step_obs) : bool :=
   list_eqb (list_eqb fm_eqb) (st_batches a) (st_batches b)
